@@ -219,6 +219,32 @@ def parse_cover(out):
     return int(m.group(1)), int(m.group(2))
 
 
+def extract_all_inputs(jtxt):
+    """list of (property name, inputs) for every FAILURE result carrying a trace"""
+    try:
+        data = json.loads(jtxt)
+    except Exception:
+        return []
+    out = []
+    for item in data:
+        if not isinstance(item, dict) or 'result' not in item:
+            continue
+        for r in item['result']:
+            if r.get('status') == 'FAILURE' and 'trace' in r:
+                inputs = []
+                for st in r['trace']:
+                    if st.get('stepType') != 'assignment':
+                        continue
+                    fn = st.get('sourceLocation', {}).get('function', '')
+                    if fn in ('in_u8', 'in_u16', 'in_u32', 'in_u64') and st.get('lhs') == 'v' \
+                            and st.get('assignmentType') == 'variable' and not st.get('hidden'):
+                        b = st.get('value', {}).get('binary')
+                        if b is not None:
+                            inputs.append({'fn': fn, 'value': int(b, 2)})
+                out.append((r.get('property'), r.get('description'), inputs))
+    return out
+
+
 def extract_inputs(jtxt):
     """ordered list of values returned by in_*() functions in a cbmc JSON trace"""
     try:
@@ -343,6 +369,10 @@ def run_obligation(ctx, unit, ob, cfg, tier, canary=False, want_trace=False, cov
         res['cover'] = [len(covs) - len(unreached), len(covs)]
         if rc in (0, 10) and covs and not unreached:
             res['status'] = 'covered'
+            if want_trace:
+                cmdt = ['cbmc'] + flags + ['--trace', '--json-ui', cur]
+                rc3, out3, dt3 = sh(cmdt, budget)
+                res['cover_traces'] = [(n, dsc, inp) for (n, dsc, inp) in extract_all_inputs(out3) if (dsc or '').startswith('COVER')]
         elif rc in (0, 10):
             res.update(status='undecided', reason='cover goals unreachable behind the preconditions (vacuity): %s' % (unreached or 'no COVER goal in harness'))
         else:
@@ -566,7 +596,7 @@ def run_property(prop, tier, seed, jobs_n):
             if ob.get('canary'):
                 futs[ex.submit(run_obligation, ctx, u, ob, cfg, tier, True, False)] = (u, ob, cfg, True)
             if ob.get('covers'):
-                futs[ex.submit(run_obligation, ctx, u, ob, cfg, tier, False, False, True)] = (u, ob, cfg, 'cover')
+                futs[ex.submit(run_obligation, ctx, u, ob, cfg, tier, False, tier == 'thorough' and u.get('native', True) and ob.get('mode') != 'dfcc', True)] = (u, ob, cfg, 'cover')
         for f in cf.as_completed(futs):
             u, ob, cfg, is_canary = futs[f]
             try:
@@ -613,6 +643,32 @@ def run_property(prop, tier, seed, jobs_n):
     for c in covers:
         if c['status'] != 'covered':
             undecided.append({'unit': c['unit'], 'ob': c['ob'], 'config': c['config'], 'reason': c.get('reason')})
+    # covalidation (thorough tier): every cover-goal witness found by cbmc is replayed on the REAL C++ code; the real code must
+    # pass the same CHECKs there (a mismatch means the lowering or a stub misrepresents the code: undecided, never a verdict)
+    coval = {'witnesses': 0, 'replayed': 0, 'agree': 0, 'skipped': 0}
+    for c in covers:
+        tr = c.get('cover_traces')
+        if not tr:
+            continue
+        u = ctx.units[c['unit']]
+        ob = [o for o in u['obligations'] if o['id'] == c['ob']][0]
+        try:
+            exe = native_build(ctx, u, ob, c['config'])
+        except Undecided as e:
+            coval['skipped'] += len(tr)
+            continue
+        for (pname, dsc, inp) in tr:
+            coval['witnesses'] += 1
+            nr = native_run(exe, inp)
+            if nr.get('exhausted') or nr.get('assume_failed'):
+                coval['skipped'] += 1
+                continue
+            coval['replayed'] += 1
+            if nr['assert_failures'] or nr['sanitizer']:
+                undecided.append({'unit': c['unit'], 'ob': c['ob'], 'config': c['config'],
+                                  'reason': 'covalidate mismatch on witness of %s: real code fails %s %s (lowering or stub suspect)' % (dsc, nr['assert_failures'][:3], nr['sanitizer'][:200])})
+            else:
+                coval['agree'] += 1
     # native replay of violations
     viol_lines = []
     for r in violations:
@@ -682,6 +738,7 @@ def run_property(prop, tier, seed, jobs_n):
             'solver_seconds': round(sum(r.get('solver_s', 0) or 0 for r in results + canaries), 1),
             'canaries_failed_as_expected': sum(1 for c in canaries if c['status'] == 'failed'),
             'canaries_total': len(canaries),
+            'covalidate': coval,
             'cover_goals_reached': sum(c.get('cover', [0, 0])[0] for c in covers),
             'cover_goals_total': sum(c.get('cover', [0, 0])[1] for c in covers),
             'undecided': undecided,
